@@ -80,6 +80,7 @@ PROPS = {
             "C10_A23_legacy_window_refuted": [],
             "C10_A24_repaired": [],
             "C10_compile_wellformed": [],
+            "C10_compile_wellformed_head": [],
             "C10_compile_trace_complete": [],
             "C10_from_u32_injective": [],
             "C10_few_globals": [],
